@@ -10,25 +10,28 @@ SPEC = dict(
          "distinct_nontrivial counts distinct drawn plans whose recorded history satisfied that rule.",
     assumptions=[
         "the interleaving of clients, nemesis and replicas is the operating system's: a case is a pure function of the seed only as far as the drawn plan goes; the reproducible unit is the recorded history, which the deterministic checker re-examines (./check C04 --replay <violation-*.json>)",
-        "invoke/return stamps are taken from the test process's monotonic clock immediately before a command is written to and after its reply is read from the socket",
-        "only replies produced by the state machine on apply constrain the history: negative replies of the two-stage commands (SETNX 0, SADD 0, LPOP/RPOP/SPOP nil), which the serving node may answer from its local store without proposing, and all plain reads (served locally without a quorum round) are recorded and counted but kept out of the linearizability check",
-        "an operation whose client saw a timeout, a connection loss or any error other than the seven errors that are returned before anything is proposed has an unknown outcome: it may take effect at any time after its invocation, or never",
-        "the final value of every key (read from every replica after the applied indexes agree and stay put, through the production stale-read switch) enters the per-key history as one more read that follows every completed operation",
-        "a cluster that does not come up or does not settle within the time limits, a porcupine search that exceeds 25 s, and a replica that dies inside librocksdb's own assertion-enabled build are counted as inconclusive histories, never as violations",
+        "invoke/return stamps are taken from the test process's monotonic clock immediately before a command is written to and after its reply is read from the socket; clients talk to the node the control endpoints report as leader, re-reading it after any error and now and then by plan, so after a leader transfer part of the writes enter through followers",
+        "only replies produced by the state machine on apply constrain the linearizability check: negative replies of the two-stage commands (SETNX 0, SADD 0, LPOP/RPOP/SPOP nil), which the serving node may answer from its local store without proposing, and all plain reads (served locally without a quorum round, so a resumed former leader answers them from the past) are recorded and counted but kept out of it",
+        "one rule is checked on reads: a read that follows an acknowledged SET/GETSET on the same TCP connection (same process, whose store only moves forward) must not return a value that had been overwritten before that write was invoked, nor find the key absent; half of the SETs are followed at once by such a read",
+        "an operation whose client saw a timeout, a connection loss or any other error reply has an unknown outcome: it may take effect at any time after its invocation, or never. Writes answered with one of the eight errors that the code returns before anything is proposed (listed in linear_test.go with their call sites) are held to 'no effect' in a first pass; a history failing that pass is re-examined with those writes as unknown-outcome operations, and only what still fails is a violation, because the property promises no more than 'at most once' for a write that got an error",
+        "the final value of every key (read from every replica through the production stale-read switch, after a barrier write and once the applied and commit indexes of all replicas are equal and did not move while dumping) enters the per-key history as one more read that follows every completed operation",
+        "a cluster that does not come up or does not settle within the time limits and a porcupine search that exceeds 25 s are counted as inconclusive histories, never as violations; a replica that is running without its namespace at settle time (its snapshot restore failed because the leader had already purged the checkpoint; in production the cluster coordinator re-creates it) is restarted by the harness and counted",
         "SPOP removes in member order (doc/user-guide.md), ZINCRBY deltas are integers below 2^37 so that float scores are exact",
     ],
     quick=[
         dict(name="selftest", pkg="c04_linear", test="TestCheckerSelfTest", checks=1, shards=1),
+        dict(name="known", pkg="c04_linear", test="TestKnown.*", checks=1, shards=1),
         dict(name="n3", pkg="c04_linear", test="TestLinearizable", checks=4, shards=4, timeout=600, shrinktime="0s",
              env={"C04_NODES": 3, "C04_ENGINE": "pebble", "C04_PORT_BASE": 21000}),
     ],
     thorough=[
         dict(name="selftest", pkg="c04_linear", test="TestCheckerSelfTest", checks=1, shards=1),
-        dict(name="n3", pkg="c04_linear", test="TestLinearizable", checks=30, shards=5, timeout=1500, shrinktime="0s",
+        dict(name="known", pkg="c04_linear", test="TestKnown.*", checks=1, shards=1),
+        dict(name="n3", pkg="c04_linear", test="TestLinearizable", checks=45, shards=5, timeout=1800, shrinktime="0s",
              env={"C04_NODES": 3, "C04_ENGINE": "pebble", "C04_PORT_BASE": 21000}),
-        dict(name="n5", pkg="c04_linear", test="TestLinearizable", checks=25, shards=2, timeout=1500, shrinktime="0s",
+        dict(name="n5", pkg="c04_linear", test="TestLinearizable", checks=35, shards=2, timeout=1800, shrinktime="0s",
              env={"C04_NODES": 5, "C04_ENGINE": "pebble", "C04_PORT_BASE": 23200}),
-        dict(name="rocks", pkg="c04_linear", test="TestLinearizable", checks=25, shards=1, timeout=1500, shrinktime="0s",
+        dict(name="rocks", pkg="c04_linear", test="TestLinearizable", checks=35, shards=1, timeout=1800, shrinktime="0s",
              env={"C04_NODES": 3, "C04_ENGINE": "rocksdb", "C04_PORT_BASE": 24400}),
     ],
 )
@@ -39,7 +42,7 @@ TEXT = dict(
     technique="fault-injected concurrent histories against real multi-process clusters (plans drawn with rapid; kill -9, SIGTERM, restart, leader transfer, SIGSTOP/SIGCONT), "
               "checked per key for linearizability with porcupine against a sequential model of the command set (operations of unknown outcome open-ended, the final value as a last read), "
               "plus exactly-once accounting of uniquely tagged effects and equality of the logical dumps of all replicas after settling",
-    level_text="Exploration with fault injection: each tier records a fixed number of histories (quick 16, thorough 225) and every completed history must linearize, account for every "
+    level_text="Exploration with fault injection: each tier records a fixed number of histories (quick 16, thorough 330) and every completed history must linearize, account for every "
                "acknowledged write exactly once and leave identical replicas. The schedule inside a history is the operating system's, not the harness's. No absence claim; this is the weakest "
                "kind of evidence in the suite and is labelled so.",
     level_note="Trusted: the monotonic clock of the test process, porcupine's search, the sequential model (cross-checked by a deterministic self-test of the checker on hand-written good and bad histories). "
